@@ -20,6 +20,7 @@ func init() {
 	reg("H_C02_sequence", H_C02_sequence)
 	reg("H_C02_conservation", H_C02_conservation)
 	reg("H_C03_faults", H_C03_faults)
+	reg("H_C03_panics", H_C03_panics)
 	reg("H_C07_packets", H_C07_packets)
 	reg("H_C07_payloads", H_C07_payloads)
 	reg("H_C07_channels", H_C07_channels)
@@ -190,6 +191,33 @@ func H_C03_faults() {
 	}
 	if !(s.route == routeInternal && s.intKind == intFeeRecipient) {
 		verif.Assert(paid == nonZeroFees, "success-ack-implies-every-fee-was-paid")
+	}
+}
+
+// H_C03_panics: a downstream message server may also fail by PANICKING. Unrecovered, the panic aborts the receive (no
+// acknowledgement is written, IBC core reverts everything: not a success). If anything between the bridge and the
+// middleware recovers it, the outcome must still not be a success acknowledgement.
+func H_C03_panics() {
+	w := NewWorld(false)
+	w.CCTP.panics, w.Hyp.panics, w.Int.panics = true, true, true
+	s := drawScenario()
+	s.apply(w, true)
+	success := false
+	aborted := verif.Aborts(func() { success = w.Recv(s.data()).Success() })
+	failed := w.CCTP.failed + w.Hyp.failed + w.Int.failed
+	if aborted {
+		verif.Cover("receive-aborted")
+		return
+	}
+	if !success {
+		verif.Cover("error-ack")
+		return
+	}
+	verif.Cover("success-ack")
+	verif.Assert(failed == 0, "success-ack-implies-no-step-failed")
+	if s.toOrbiter() {
+		verif.Assert(len(w.CCTP.reqs)+len(w.Hyp.reqs)+len(w.Int.reqs) == 1, "success-ack-implies-one-bridge-request")
+		verif.Assert(w.L.Bal(core.ModuleAddress, nativeDenom).IsZero(), "success-ack-implies-nothing-left-behind")
 	}
 }
 
